@@ -11,6 +11,7 @@ import (
 	"testing"
 	"time"
 
+	"github.com/oneconcern/datamon/pkg/cafs"
 	"github.com/oneconcern/datamon/pkg/core"
 	"github.com/oneconcern/datamon/pkg/model"
 	"pgregory.net/rapid"
@@ -31,8 +32,8 @@ func TestMain(m *testing.M) {
 type crashT struct {
 	Sel       int  `json:"sel"` // crash index = 1 + Sel % W
 	Land      bool `json:"land"`
-	Transient bool `json:"transient"` // a single failed store write (the process goes on) instead of a crash
-	NoRetry   bool `json:"no_retry"`  // the interrupted operation is not retried (leftovers accumulate)
+	Transient bool `json:"transient"`          // a single failed store write (the process goes on) instead of a crash
+	NoRetry   bool `json:"no_retry"`           // the interrupted operation is not retried (leftovers accumulate)
 	FromEnd   int  `json:"from_end,omitempty"` // pinned cases: crash index = W - FromEnd
 	SameID    bool `json:"same_id,omitempty"`  // uploads: the retry re-uses the bundle ID (preserved ID) with changed source data
 }
@@ -46,6 +47,9 @@ type opT struct {
 	Target int           `json:"target,omitempty"`
 	Splits []hx.TreeSpec `json:"splits,omitempty"`
 	Crash  *crashT       `json:"crash,omitempty"`
+	// ViaEntries (upload): the blobs are stored first and the bundle is then committed from a list of entries with
+	// Bundle.UploadBundleEntries - the commit path of the mutable mount and of library callers
+	ViaEntries bool `json:"via_entries,omitempty"`
 }
 
 const repo = "repo"
@@ -64,6 +68,9 @@ func drawOps(t *rapid.T) []opT {
 			op.Tree = hx.GenTree(t, 4096, 0, 4, 2, false, "tree")
 			op.EPF = rapid.SampledFrom([]uint{1, 2, 1000}).Draw(t, "epf")
 			op.IDSec = rapid.IntRange(1, 60).Draw(t, "idsec")
+			if rapid.IntRange(0, 3).Draw(t, "via_entries") == 0 {
+				op.ViaEntries, op.EPF = true, 1000
+			}
 		case "label", "dellabel":
 			op.Label = rapid.SampledFrom([]string{"l1", "l2"}).Draw(t, "label")
 			op.Target = rapid.IntRange(0, 7).Draw(t, "target")
@@ -77,6 +84,11 @@ func drawOps(t *rapid.T) []opT {
 			op.Crash = &crashT{Sel: rapid.IntRange(0, 999).Draw(t, "crashsel"), Land: rapid.Bool().Draw(t, "land"),
 				Transient: rapid.IntRange(0, 3).Draw(t, "transient") == 0, NoRetry: rapid.IntRange(0, 2).Draw(t, "noretry") == 0,
 				SameID: rapid.IntRange(0, 3).Draw(t, "sameid") == 0}
+		}
+		if op.ViaEntries && op.Crash != nil {
+			// a commit from entries has no preserved-ID retry (the mount draws a random ID; UploadBundleEntries has no
+			// existence check of its own): only plain retries under a new ID
+			op.Crash.SameID = false
 		}
 		ops = append(ops, op)
 	}
@@ -164,6 +176,26 @@ func (w *world) exec(op opT, v *hx.Views, prep *hx.Views, bundleID string, diamo
 		dir := w.sc.Dir("src")
 		if err := op.Tree.Tree().Write(dir); err != nil {
 			return fmt.Errorf("harness: %v", err)
+		}
+		if op.ViaEntries {
+			// another, undisturbed party of the same process has already stored the blobs (as the mount does while
+			// files are written); only the commit of the entries is subject to the crash
+			bv := w.env.Actor("blobs")
+			fs, err := cafs.New(cafs.LeafSize(op.Tree.Leaf), cafs.Backend(bv.Blob), cafs.Logger(hx.Nop), cafs.CacheSize(4*int(op.Tree.Leaf)))
+			if err != nil {
+				return fmt.Errorf("harness: %v", err)
+			}
+			tree := op.Tree.Tree().Uploadable()
+			b := hx.NewBundle(repo, v.Stores, nil, op.Tree.Leaf, core.BundleID(bundleID))
+			b.BundleDescriptor.ID = bundleID // what InitializeBundleID does for the mount, with an ID the harness chose
+			for _, p := range tree.Paths() {
+				res, err := fs.Put(ctx, bytes.NewReader(tree[p]))
+				if err != nil {
+					return fmt.Errorf("harness: storing blobs: %v", err)
+				}
+				b.BundleEntries = append(b.BundleEntries, model.BundleEntry{Hash: res.Key.String(), NameWithPath: p, FileMode: 0o644, Size: uint64(len(tree[p]))})
+			}
+			return b.UploadBundleEntries(ctx)
 		}
 		b := hx.NewBundle(repo, v.Stores, hx.Local(dir), op.Tree.Leaf, core.BundleID(bundleID), core.ConcurrentFileUploads(4))
 		return core.VerifUpload(ctx, b, op.EPF, nil)
